@@ -113,7 +113,7 @@ func runC18(cfg *vh.Config) error {
 	if err != nil {
 		return err
 	}
-	n := cfg.Scale(420, 9000)
+	n := cfg.Scale(420, 3000)
 	r := cfg.R
 	distinct := vh.Distinct{}
 
@@ -164,6 +164,30 @@ func runC18(cfg *vh.Config) error {
 	}
 	obs := pool.RunAll(reqs)
 	res.Distribution["worker-restarts"] = pool.Restarts
+
+	// ---- observation only (DESIGN section 10, #23): the same sets linked so that option extension
+	// values are dynamicpb messages (what a compiler library hands out before any re-marshal). This
+	// entry point is outside C18 as checked here: the repository itself re-marshals such descriptors
+	// before they reach the reader (internal/protosrc/compiler.go addFile, "we need them to be the
+	// implemented Go type for proto.GetExtension to not panic"), and the abstract descriptors of the
+	// model carry typed option trees. The classes are recorded as evidence, never as failures.
+	var dyn []*Request
+	for i, c := range cases {
+		if i >= cfg.Scale(24, 200) {
+			break
+		}
+		dyn = append(dyn, &Request{ID: c.id, Prop: "C18", SetB64: c.req.SetB64, GenPaths: c.req.GenPaths, Dynamic: true, SetOnly: true})
+	}
+	for _, os := range pool.RunAll(dyn) {
+		for _, o := range os {
+			if strings.HasPrefix(o.Step, "set|") {
+				res.Count("observation-only:dynamic-extension-values:" + o.Class)
+				if o.Class == "panic" && len(res.Notes) < 6 {
+					res.Notes = append(res.Notes, "dynamic extension values (outside the property, see notes/schb.md #23): "+o.Site+": "+short(o.Msg))
+				}
+			}
+		}
+	}
 
 	cf := &vh.CasesFile{
 		Header: "From Coq Require Import String List NArith ZArith.\nFrom J5V.model Require Import ReflectDesc ReflectSchema ReflectCorr.",
